@@ -15,7 +15,8 @@ import (
 // identity, and, for identities of the default "orbitdb" type, the identity's
 // own signatures must bind that public key to the identity id. Without this
 // check anybody could name an authorised writer's id in an entry signed with
-// a key of their own. Any further check is left to the identity provider.
+// a key of their own. Identities of the given provider's own type are left to
+// that provider; identities of any other type are refused.
 func VerifyEntryAuthor(entry logac.LogEntry, p identityprovider.Interface) error {
 	if entry == nil {
 		return fmt.Errorf("entry is not defined")
@@ -32,10 +33,19 @@ func VerifyEntryAuthor(entry logac.LogEntry, p identityprovider.Interface) error
 		}
 	}
 
-	if identity.Type == "orbitdb" {
+	switch {
+	case identity.Type == "orbitdb":
 		if err := verifyOrbitDBIdentity(identity); err != nil {
 			return err
 		}
+
+	case p != nil && identity.Type == p.GetType():
+		// an identity of the provider's own kind: the provider decides below
+
+	default:
+		// the type is chosen by whoever built the entry: an identity of a
+		// kind nobody here can check proves nothing about who wrote it
+		return fmt.Errorf("identity of type %q cannot be verified", identity.Type)
 	}
 
 	if p == nil {
